@@ -316,17 +316,50 @@ def explore(ctx, n_wf, n_near, n_raw, n_esc, corpus_lines=()):
         # copy constructor and pickling of this message
         if r.random() < 0.3:
             p2 = r.choice(['', '', 'other!u@h']); c2 = r.choice(['', '', 'NOTICE']); a2 = r.choice([[], [], ['#x', 'new text']])
+            extra_kw = {}
+            if r.random() < 0.4:
+                # the server_tags= keyword is documented as ignored when msg= is given
+                extra_kw['server_tags'] = {r.choice(['x', 'label', 'time']): r.choice(['v', None, '2011-10-19T16:40:51.620Z'])}
+            if r.random() < 0.5:
+                str(m)      # a source whose serialisation is already cached
             try:
-                mc = ircmsgs.IrcMsg(msg=m, prefix=p2, command=c2, args=tuple(a2))
+                mc = ircmsgs.IrcMsg(msg=m, prefix=p2, command=c2, args=tuple(a2), **extra_kw)
                 outc = '%s\t%s\t%s\t%s\t%s' % (wire.enc(mc.prefix), wire.enc(mc.command), wire.enc_list(mc.args), enc_tags(mc.server_tags), wire.enc(str(mc)))
                 okc = True; msgc = ''
+                # a copy is a message like any other: what it serialises to parses back to ITS fields
+                # (whenever the Lean predicate WFD holds of them; decided below from the driver's answer)
+                outp, mp = impl_parse(ircmsgs, str(mc))
+                canonc = {k: (v if v else None) for k, v in mc.server_tags.items()}
+                selfok = (mp is not None and mp.prefix == mc.prefix and mp.command == mc.command and
+                          tuple(mp.args) == tuple(mc.args) and dict(mp.server_tags) == canonc)
+            except AssertionError:
+                outc = None; okc = None; msgc = ''; selfok = None
             except Exception as e:
-                outc = 'crash\t' + type(e).__name__; okc = False; msgc = 'IrcMsg(msg=...) raised %s' % type(e).__name__
+                outc = 'crash\t' + type(e).__name__; okc = False; msgc = 'IrcMsg(msg=...) raised %s' % type(e).__name__; selfok = None
             cc = Case({'op': 'copy', 'prefix': pfx, 'command': cmd, 'args': list(args), 'tags': tags, 'over': [p2, c2, a2]},
                       impl=outc, oracle_ok=okc, oracle_msg=msgc, kind=kind, tags=('copy',))
-            cases.append(cc)
-            lines.append('copy\t%s\t%s\t%s\t%s\t%s\t%s\t%s' % (wire.enc(pfx), wire.enc(cmd), wire.enc_list(args), enc_tags(tags), wire.enc(p2), wire.enc(c2), wire.enc_list(a2)))
-            pend.append((cc, lambda o: o))
+            if outc is not None and selfok is not None and okc:
+                # hypothesis of the self-consistency oracle: WFD of the copy's own fields
+                sc = Case({'op': 'copy-selfparse', 'prefix': mc.prefix, 'command': mc.command, 'args': list(mc.args), 'tags': dict(mc.server_tags), 'over_kw': sorted(extra_kw)}, kind=kind, tags=('copy-self',))
+                def fill_self(o, sc=sc, selfok=selfok, line=str(mc)):
+                    f = o.split('\t')
+                    need = wire.dec_opt(f[1]) if len(f) > 1 else None
+                    if f[0] == '1' and (need is None or time_ok(need)):
+                        sc.oracle_ok = bool(selfok)
+                        sc.oracle_msg = '' if selfok else 'a copy-constructed message serialises to %r, which does not parse back to the copy\'s own fields (stale cached string?)' % line
+                    return None
+                if all(valid_unicode(x) for x in [mc.prefix, mc.command] + list(mc.args)):
+                    cases.append(sc)
+                    lines.append('wf\t%s\t%s\t%s\t%s' % (wire.enc(mc.prefix), wire.enc(mc.command), wire.enc_list(mc.args), enc_tags(mc.server_tags)))
+                    pend.append((sc, fill_self))
+            if outc is None:
+                continue_copy = False
+            else:
+                continue_copy = True
+            if continue_copy:
+              cases.append(cc)
+              lines.append('copy\t%s\t%s\t%s\t%s\t%s\t%s\t%s' % (wire.enc(pfx), wire.enc(cmd), wire.enc_list(args), enc_tags(tags), wire.enc(p2), wire.enc(c2), wire.enc_list(a2)))
+              pend.append((cc, lambda o: o))
         if r.random() < 0.1:
             import pickle, copy as _copy
             try:
